@@ -10,18 +10,24 @@ _TIMEOUT_RX = __import__("re").compile(r"time[\s-]?out|timed[\s-]out|time[\s-]li
                                        __import__("re").I)
 
 
-def machine_busy():
-    """more runnable work than cores (1-minute load average above the core count, or - right now - more runnable
-    tasks than 1.25 x cores): wall-clock budgets inside the MCS stage then fire for reasons that have nothing to do
-    with the code; run-vs-run comparisons of MCS rows made in that state are counted, not judged"""
-    n = os.cpu_count() or 1
+def machine_busy(probe=0.03):
+    """is this process being descheduled?  A canary burns `probe` seconds of CPU time of the calling thread and
+    looks at the wall time that took: on a machine with a free core the two agree; with more runnable work than
+    cores (somebody else's jobs - our own shards never exceed the core count) the canary takes longer.  In that
+    state wall-clock budgets inside the MCS stage fire for reasons that have nothing to do with the code, so
+    run-vs-run comparisons of MCS rows made then are counted, not judged.  (The 1-minute load average is a
+    second, slower witness.)"""
+    t0, c0 = time.perf_counter(), time.thread_time()
+    x = 0
+    while time.thread_time() - c0 < probe:
+        x += 1
+    wall = time.perf_counter() - t0
+    if wall > 1.5 * probe:
+        return True
     try:
-        with open("/proc/loadavg") as f:
-            parts = f.read().split()
-        l1, runnable = float(parts[0]), int(parts[3].split("/")[0])
-    except Exception:
-        l1, runnable = os.getloadavg()[0], 0
-    return l1 > 1.0 * n or runnable > 1.25 * n
+        return os.getloadavg()[0] > 1.5 * (os.cpu_count() or 1)
+    except OSError:
+        return False
 
 
 def tainted(row):
